@@ -149,15 +149,19 @@ Definition build_taxonomy (use_internal : bool) (t : stree) : result stree :=
   else Ok t'.
 
 (* ---------- ete3 format-8 writer (Taxonomy.tree_str / get_newick_from_tree) ---------- *)
+(* ete3 writes an empty name as "NoName" *)
+Definition name_text (n : string) : string :=
+  match n with EmptyString => "NoName"%string | _ => n end.
+
 Fixpoint write_node (t : stree) : string :=
   match t with
-  | SNode n [] => n
+  | SNode n [] => name_text n
   | SNode n (c :: r) =>
       ("(" ++ write_node c ++
       (fix go (l : list stree) : string :=
          match l with
          | [] => ""
          | x :: r' => "," ++ write_node x ++ go r'
-         end) r ++ ")" ++ n)%string
+         end) r ++ ")" ++ name_text n)%string
   end.
 Definition write8 (t : stree) : string := (write_node t ++ ";")%string.
